@@ -597,7 +597,9 @@ func c09(r *mon.Run) {
 	lk := []interface{}{"1", float64(1), "true", true, "null", nil, "[1,2,3]", []interface{}{float64(1), float64(2), float64(3)}, `{"a":1}`, map[string]interface{}{"a": float64(1)}, "[]", []interface{}{}, "0", float64(0), "-1", float64(-1), "1.5", 1.5, "\"x\"", "x"}
 	lkKeys := []func() *gen.Expr{
 		func() *gen.Expr { return gen.Func("type", gen.Current()) }, func() *gen.Expr { return gen.Func("length", gen.Func("type", gen.Current())) },
-		func() *gen.Expr { return gen.Func("to_string", gen.Func("type", gen.Current())) }, func() *gen.Expr { return gen.Func("length", gen.Func("to_string", gen.Func("to_array", gen.Current()))) },
+		func() *gen.Expr { return gen.Func("to_string", gen.Func("type", gen.Current())) }, func() *gen.Expr {
+			return gen.Func("length", gen.Func("to_string", gen.Func("to_array", gen.Current())))
+		},
 	}
 	lkFns := []string{"sort_by", "max_by", "min_by", "map"}
 	lkw := mon.Workload{Name: "by-functions-over-look-alike-elements", N: len(lk) / 2 * len(lkKeys) * len(lkFns) * 12, Batch: 200,
@@ -816,6 +818,14 @@ func c09ReuseTrees() []*gen.Expr {
 		gen.Func("sort_by", gen.Func("sort_by", rows(), gen.ExpRef(gen.Field("s"))), gen.ExpRef(abs(gen.Field("k")))), gen.Func("min_by", rows(), gen.ExpRef(gen.Func("sum", gen.MultiList(gen.Field("k"), abs(gen.Field("k")))))),
 		gen.Pipe(abs(d()), gen.Func("to_string", gen.Current())), gen.Func("type", gen.Func("values", o())), gen.Func("ends_with", gen.Func("join", gen.Raw("-"), gen.Func("sort", gen.Func("keys", o()))), sf()),
 		gen.Func("avg", gen.Func("map", gen.ExpRef(gen.Func("length", gen.Func("to_string", gen.Current()))), a())),
+		// an EMPTY literal or document member as the first operand of something that builds a result (nothing to copy - and nothing to
+		// write into either): every search starts from the same empty container
+		gen.Func("merge", gen.LitJSON("{}"), o()), gen.Func("merge", gen.LitJSON("{}"), o(), gen.MultiHash(keyA("x"), []*gen.Expr{d()})), gen.Func("merge", gen.LitJSON("{}"), gen.Current()),
+		gen.MultiList(gen.Func("merge", gen.LitJSON("{}"), o()), gen.Func("merge", gen.LitJSON("{}"), gen.MultiHash(keyA("y"), []*gen.Expr{sf()}))),
+		gen.MultiList(gen.Func("merge", gen.Field("e"), o()), gen.Func("merge", gen.Field("e"), gen.MultiHash(keyA("y"), []*gen.Expr{sf()})), gen.Field("e")),
+		gen.Chain(gen.MultiList(gen.LitJSON("[]"), a()), gen.StFlatten()), gen.Chain(gen.MultiList(gen.Field("ea"), a(), gen.Field("ea")), gen.StFlatten()), gen.Func("merge", gen.Func("not_null", gen.Field("z"), gen.LitJSON("{}")), o()),
+		gen.Func("merge", gen.Or(gen.Field("z"), gen.LitJSON("{}")), gen.MultiHash(keyA("k"), []*gen.Expr{d()})), gen.Pipe(gen.LitJSON("{}"), gen.Func("merge", gen.Current(), gen.MultiHash(keyA("k"), []*gen.Expr{sf()}))),
+		gen.Func("map", gen.ExpRef(gen.Func("merge", gen.LitJSON("{}"), gen.MultiHash(keyA("v"), []*gen.Expr{gen.Current()}))), a()), gen.Func("merge", gen.LitJSON("{}"), gen.LitJSON("{}"), o(), gen.LitJSON("{}")),
 	}
 }
 
@@ -827,6 +837,7 @@ func c09ReuseDoc(j int) map[string]interface{} {
 		"d": f, "a": []interface{}{f, float64(2), float64(-3)}, "s": "s" + strconv.Itoa(j%3),
 		"rows": []interface{}{map[string]interface{}{"k": float64(-2), "s": "bb", "i": float64(0)}, map[string]interface{}{"k": f, "s": "a", "i": float64(1)}, map[string]interface{}{"k": float64(1), "s": "ccc", "i": float64(2)}},
 		"o":    map[string]interface{}{"s0": float64(1), "k" + strconv.Itoa(j%2): "v"},
+		"e":    map[string]interface{}{}, "ea": []interface{}{}, "z": nil,
 	}
 	switch j % 8 {
 	case 0:
